@@ -9,5 +9,6 @@ def build_all():
     lib.build_c09('quick')
     lib.build_conc()
     lib.build_suite()                        # the repository's own test programs with hooks
+    lib.build_suite('c++11')
     import checks
     checks.teardown_segments('quick', 1)     # TLC-generated tear-down orders (cached by spec hash)
